@@ -17,10 +17,15 @@ def _stability(uname, seed):
     runs = []
     for i in range(3):
         half = max(1, unit.rlimit // 2)
-        r = verus.run_verus(unit.gen_path, ["--rlimit", str(half), "--smt-option", "smt.random_seed=%d" % (seed + i + 1)])
-        s = verus.summarize(r)
+        for attempt in range(3):
+            r = verus.run_verus(unit.gen_path, ["--rlimit", str(half), "--smt-option", "smt.random_seed=%d" % (seed + i + 1)])
+            s = verus.summarize(r)
+            # a run that produced no verdict at all (the verifier did not start / was killed under load) says nothing about
+            # the proof: try again, and keep the tool error visible if it persists
+            if not (s["tool_error"] and s["verified"] == 0 and s["errors"] == 0):
+                break
         runs.append({"seed": seed + i + 1, "rlimit": half, "ok": s["ok"], "verified": s["verified"], "errors": s["errors"],
-                     "smt_ms": s["smt_ms"]})
+                     "smt_ms": s["smt_ms"], "tool_error": s["tool_error"]})
     try:
         os.remove(unit.gen_path)
     except OSError:
